@@ -75,3 +75,11 @@ Theorem C05_build_candidates_schedule_independent :
     = (crows (fold_left (nbc_thread (Z.of_nat T) g rng0) (map Z.of_nat (seq 0 T)) c0), 0).
 Proof. exact nbc_schedule_independent. Qed.
 Print Assumptions C05_build_candidates_schedule_independent.
+
+(* the result of the low-memory update kernel does not even depend on HOW MANY threads share the rows *)
+From PV Require Import C05Threads.
+Theorem C05_apply_updates_thread_count_irrelevant :
+  forall ups n T g, (0 < T)%nat -> wf g n -> ups_ok n ups ->
+    apply_graph_updates_low_memory g ups T = apply_graph_updates_low_memory g ups 1.
+Proof. exact apply_low_any_thread_count. Qed.
+Print Assumptions C05_apply_updates_thread_count_irrelevant.
